@@ -491,6 +491,8 @@ func (in *Interp) valueKey(v Value, depth int) (string, bool) {
 		return s + "]", true
 	case SymBytes:
 		return fmt.Sprintf("b%d", x.S.id), true
+	case Float:
+		return fmt.Sprintf("f%d", x.B.id), true
 	case *Map:
 		if x == nil {
 			return "nilmap", true
